@@ -106,6 +106,10 @@ pub trait Engine: Send + Sync + 'static {
     fn name(&self) -> &'static str;
     /// One-off preparation in each process (load corpus, reference digests).
     fn generate(&self, case_seed: u64) -> Self::Trace;
+    /// Engines that enumerate a finite family by case index override this.
+    fn generate_indexed(&self, _index: u64, case_seed: u64) -> Self::Trace {
+        self.generate(case_seed)
+    }
     fn execute(&self, trace: &mut Self::Trace, stats: &mut Stats) -> Verdict;
     /// Candidates strictly simpler than `trace` (fewer steps / smaller arguments).
     fn shrink(&self, _trace: &Self::Trace) -> Vec<Self::Trace> {
@@ -124,10 +128,10 @@ pub trait Scenario: Send + Sync {
     fn components(&self) -> &'static str;
     /// Runs one case from its seed. Returns the verdict and, on failure or when
     /// `want_trace`, the (completed) trace.
-    fn run_seed(&self, case_seed: u64, stats: &mut Stats, want_trace: bool) -> (Verdict, Option<Value>);
+    fn run_seed(&self, index: u64, case_seed: u64, stats: &mut Stats, want_trace: bool) -> (Verdict, Option<Value>);
     fn run_trace(&self, trace: &Value, stats: &mut Stats) -> (Verdict, Value);
     fn shrink(&self, trace: &Value) -> Vec<Value>;
-    fn generate_value(&self, case_seed: u64) -> Value;
+    fn generate_value(&self, index: u64, case_seed: u64) -> Value;
 }
 
 pub struct Erased<E: Engine>(pub E);
@@ -142,11 +146,11 @@ impl<E: Engine> Scenario for Erased<E> {
     fn components(&self) -> &'static str {
         self.0.components()
     }
-    fn generate_value(&self, case_seed: u64) -> Value {
-        serde_json::to_value(self.0.generate(case_seed)).unwrap_or(Value::Null)
+    fn generate_value(&self, index: u64, case_seed: u64) -> Value {
+        serde_json::to_value(self.0.generate_indexed(index, case_seed)).unwrap_or(Value::Null)
     }
-    fn run_seed(&self, case_seed: u64, stats: &mut Stats, want_trace: bool) -> (Verdict, Option<Value>) {
-        let mut t = self.0.generate(case_seed);
+    fn run_seed(&self, index: u64, case_seed: u64, stats: &mut Stats, want_trace: bool) -> (Verdict, Option<Value>) {
+        let mut t = self.0.generate_indexed(index, case_seed);
         let v = guarded(|| self.0.execute(&mut t, stats));
         let need = want_trace || matches!(v, Verdict::Fail(_));
         let tv = if need { Some(serde_json::to_value(&t).unwrap_or(Value::Null)) } else { None };
